@@ -5,11 +5,12 @@
    Set (the caller's slice is fresh storage), Set of the id, a write through
    a slice obtained from Get, and the in-place sorts done by marshaling and
    filtering.  [inv]: all addresses are allocated and the two resources share
-   no storage.  Types are values in this model (Type.Copy builds new maps):
-   adding / removing fields of one's type and New() are checked on the Go side
-   only. *)
+   no storage.  Type level (Model/TypeHeap.v): a soft resource points to its
+   Type, whose maps are shared by everything pointing to the same Type value;
+   Copy and New allocate a fresh Type (Type.Copy) -- [C18_type_*]: adding or
+   removing fields of one's type never reaches the other's. *)
 From JV Require Import Model.Base Model.GoTime Gen.TypeGo Model.Schema Model.Value
-  Model.Heap Proofs.C18Facts.
+  Model.Heap Model.TypeHeap Proofs.C18Facts Proofs.C18Types.
 
 (* Copy yields the same readings and no shared storage *)
 Theorem C18_copy_equal_and_separate : forall h r h' c,
@@ -44,6 +45,21 @@ Theorem C18_built_source_bounded : forall zero sets id,
   bounded (fst (hbuild zero sets id)) (snd (hbuild zero sets id)).
 Proof. exact hbuild_bounded. Qed.
 Print Assumptions C18_built_source_bounded.
+
+(* type level: Copy / New give the same type in another cell ... *)
+Theorem C18_type_copy_separate : forall t,
+  tinv (tinit t) /\
+  tcell (ts_heap (tinit t)) (ts_src (tinit t)) = t /\ tcell (ts_heap (tinit t)) (ts_other (tinit t)) = t.
+Proof. exact tinit_inv. Qed.
+Print Assumptions C18_type_copy_separate.
+
+(* ... and every history of AddAttr / AddRel / RemoveField on one side leaves
+   the other side's type as it was *)
+Theorem C18_type_history_independent : forall who ops st,
+  tinv st -> Forall (fun o => top_target o = who) ops ->
+  tinv (trun st ops) /\ other_type (trun st ops) who = other_type st who.
+Proof. exact trun_frame. Qed.
+Print Assumptions C18_type_history_independent.
 
 Example c18_example :
   let st := hinit [("b", SBytes None); ("many", SStrs None)]
